@@ -40,7 +40,8 @@ CONSTANTS DivMapped,              \* "/" maps to an MX method that exists       
           PartialSubscriptIsRow,  \* A[i] on a matrix means A[i, :]              (as built: linear column-major element i)
           CallFirstOutput,        \* f(..) inside an expression = first output   (as built: vertcat of all outputs)
           StepRangeParsed,        \* a:b:c is start:step:stop                    (as built: read as start:stop:step)
-          IfStmtSequential        \* if-statement branches run sequentially      (as built: merged per variable, in order of first appearance)
+          IfStmtSequential,       \* if-statement branches run sequentially      (as built: merged per variable, in order of first appearance)
+          ExploreOptions          \* TRUE: every program under all 8 (unroll_loops, inline_functions, expand_mx) sets (C12)
 
 -----------------------------------------------------------------------------
 (* matrices as CasADi stores them: r x c, elements column-major *)
@@ -142,6 +143,7 @@ Sh(x) ==
       [] x.k = "sum1" -> <<1, Sh(x.x)[2]>>
       [] x.k = "ivar" -> <<1, 1>>
       [] x.k = "isym" -> <<x.r, 1>>
+      [] x.k = "unr"  -> <<x.n, x.m>>
       [] x.k = "map"  -> (LET RECURSIVE Rows(_)
                               Rows(i) == IF i = 0 THEN 0 ELSE Sh(x.body[i])[1] * Sh(x.body[i])[2] + Rows(i - 1)
                           IN  <<Len(x.vals), Rows(Len(x.body))>>)
@@ -277,6 +279,7 @@ Lower(e, g) ==
                 ELSE IF e.n \in DOMAIN OpMap /\ Len(xs) = 1 THEN LUn(OpMap[e.n], xs[1])
                 ELSE IF e.n = "sum" THEN LSum(xs[1])
                 ELSE IF e.n \in MXMethods1 THEN LUn(e.n, xs[1])                 \* hasattr(MX, op)
+                ELSE IF e.n = "delay" THEN LUn("delay", xs[1])                  \* a fresh input symbol shaped like the argument: uninterpreted
                 ELSE IF IsUserFunc(g.P, e.n)
                      THEN LET outs == FnOutputs(FuncNamed(g.P, e.n), g.P)
                           IN  IF AnyRaise(outs) THEN FirstRaise(outs)
@@ -455,10 +458,65 @@ LowerEq(e, g) ==
                 ELSE LMap(body, e.n, lv.vals)
       [] OTHER -> LRaise("unexpected equation node")
 
+Wrap(i, len) == IF i < 0 THEN i + len ELSE i
+
+-----------------------------------------------------------------------------
+(* C12 - representation-only options.  generator.py:105-106 turns unroll_loops into the map mode
+   ("inline" = the mapped loop body is instantiated once per iteration, "serial" = one map node) and
+   inline_functions into the call mode (the function body is substituted at the call site, or a call
+   node is kept); expand_mx (model.py:1295-1297) re-expresses the finished functions element by element
+   as SX, which has no counterpart at this level of abstraction: it is the identity here.
+   Represent rewrites a lowered equation accordingly; the invariants then hold for all 8 option sets
+   with the SAME declarative value, which is the property.                                          *)
+DefaultOpt == [unroll |-> TRUE, inline |-> TRUE, expand |-> FALSE]
+OptSets == IF ExploreOptions THEN [unroll : BOOLEAN, inline : BOOLEAN, expand : BOOLEAN] ELSE {DefaultOpt}
+
+LUnr(cols, n, m) == [k |-> "unr", cols |-> cols, n |-> n, m |-> m]     \* cols[t] = the body instantiated for iteration t
+
+RECURSIVE Instantiate(_, _, _, _, _), Represent(_, _, _)
+(* one iteration of a loop body: the index variable becomes a constant, every placeholder the element(s) it stands for *)
+Instantiate(x, n, vals, t, P) ==
+    CASE x.k = "ivar" -> (IF x.n = n THEN LC(M11(RI(vals[t]))) ELSE x)
+      [] x.k = "isym" ->
+            LET d   == DimsOf(P, x.n)
+                rc  == MShape(d)
+                i0  == Wrap(IdxVals(x, n, vals, P)[t][1] - 1, AxisLen(x, P))
+                sym == LSym(x.n, rc[1], rc[2])
+            IN  IF x.sel = <<>> /\ rc[2] = 1 THEN LGet(sym, <<i0>>, 1, 1)
+                ELSE IF x.cs = "A" THEN LGet(sym, [j \in DOMAIN x.sel |-> x.sel[j] * rc[1] + i0], x.r, 1)
+                ELSE LGet(sym, [j \in DOMAIN x.sel |-> i0 * rc[1] + x.sel[j]], x.r, 1)
+      [] x.k \in {"un", "T", "sum1"} -> [x EXCEPT !.x = Instantiate(x.x, n, vals, t, P)]
+      [] x.k = "get"  -> [x EXCEPT !.x = Instantiate(x.x, n, vals, t, P)]
+      [] x.k = "bin"  -> [x EXCEPT !.x = Instantiate(x.x, n, vals, t, P), !.y = Instantiate(x.y, n, vals, t, P)]
+      [] x.k = "ite"  -> [x EXCEPT !.c = Instantiate(x.c, n, vals, t, P), !.t = Instantiate(x.t, n, vals, t, P), !.e = Instantiate(x.e, n, vals, t, P)]
+      [] x.k = "vcat" -> [x EXCEPT !.xs = [i \in DOMAIN x.xs |-> Instantiate(x.xs[i], n, vals, t, P)]]
+      [] x.k = "call" -> [x EXCEPT !.args = [i \in DOMAIN x.args |-> Instantiate(x.args[i], n, vals, t, P)]]
+      [] OTHER -> x
+
+Represent(x, opt, P) ==
+    CASE x.k = "call" ->
+            LET args == [i \in DOMAIN x.args |-> Represent(x.args[i], opt, P)]
+            IN  IF opt.inline
+                THEN LET binding == [nm \in {x.ins[i] : i \in DOMAIN x.ins} |-> args[CHOOSE i \in DOMAIN x.ins : x.ins[i] = nm]]
+                         outs == [i \in DOMAIN x.outs |-> Subst(x.outs[i], binding)]
+                     IN  IF x.first THEN outs[1] ELSE LVcat(outs)
+                ELSE [x EXCEPT !.args = args]
+      [] x.k = "map" ->
+            LET body == [i \in DOMAIN x.body |-> Represent(x.body[i], opt, P)]
+                RECURSIVE Rows(_)
+                Rows(i) == IF i = 0 THEN 0 ELSE Sh(x.body[i])[1] * Sh(x.body[i])[2] + Rows(i - 1)
+            IN  IF opt.unroll
+                THEN LUnr([t \in DOMAIN x.vals |-> [i \in DOMAIN body |-> Instantiate(body[i], x.n, x.vals, t, P)]], Len(x.vals), Rows(Len(x.body)))
+                ELSE [x EXCEPT !.body = body]
+      [] x.k \in {"un", "T", "sum1", "get"} -> [x EXCEPT !.x = Represent(x.x, opt, P)]
+      [] x.k = "bin"  -> [x EXCEPT !.x = Represent(x.x, opt, P), !.y = Represent(x.y, opt, P)]
+      [] x.k = "ite"  -> [x EXCEPT !.c = Represent(x.c, opt, P), !.t = Represent(x.t, opt, P), !.e = Represent(x.e, opt, P)]
+      [] x.k = "vcat" -> [x EXCEPT !.xs = [i \in DOMAIN x.xs |-> Represent(x.xs[i], opt, P)]]
+      [] OTHER -> x
+
 -----------------------------------------------------------------------------
 (* evaluation of a lowered expression: env name -> matrix, it = current loop iteration (or none) *)
 NoIter == [n |-> "", v |-> 0, t |-> 0, vals |-> <<>>]
-Wrap(i, len) == IF i < 0 THEN i + len ELSE i
 
 RECURSIVE Run(_, _, _, _)
 Run(x, env, it, P) ==
@@ -492,6 +550,10 @@ Run(x, env, it, P) ==
                 m    == col[1].r
             IN  IF \E t \in 1..n : MIsErr(col[t]) THEN MErr
                 ELSE MM(n, m, [j \in 1..(n * m) |-> col[((j - 1) % n) + 1].d[((j - 1) \div n) + 1]])
+      [] x.k = "unr"  ->          \* same arrangement as the map: iterations x rows
+            LET col == [t \in 1..x.n |-> MVcat([i \in DOMAIN x.cols[t] |-> MVec(Run(x.cols[t][i], env, it, P))])]
+            IN  IF \E t \in 1..x.n : MIsErr(col[t]) THEN MErr
+                ELSE MM(x.n, x.m, [j \in 1..(x.n * x.m) |-> col[((j - 1) % x.n) + 1].d[((j - 1) \div x.n) + 1]])
       [] x.k = "call" ->
             LET av  == [i \in DOMAIN x.args |-> Run(x.args[i], env, it, P)]
                 fe  == [nm \in {x.ins[i] : i \in DOMAIN x.ins} |-> av[CHOOSE i \in DOMAIN x.ins : x.ins[i] = nm]]
@@ -520,8 +582,9 @@ VARIABLES item,    \* the program [fam, prog, extra]
           k,       \* equations translated so far (the equation section first, then the initial equation section)
           decl,    \* declarative side: per translated equation, per point, its rows
           gen,     \* operational side, same layout
-          env      \* the evaluation points: per point the value of every variable, der(.) and time
-vars == <<item, pc, k, decl, gen, env>>
+          env,     \* the evaluation points: per point the value of every variable, der(.) and time
+          opt      \* the representation options this run of the generator uses
+vars == <<item, pc, k, decl, gen, env, opt>>
 
 P0 == item.prog
 Pts == 1..NPts
@@ -537,15 +600,17 @@ Shard == IF NShards = 1 THEN ItemSet
 (* Generator.__init__ + get_symbol: the shapes are the declared (literal / pinned) dimensions *)
 Init == /\ item \in Shard /\ pc = "translate" /\ k = 0 /\ decl = <<>> /\ gen = <<>>
         /\ env = [t \in Pts |-> EnvAt(item.prog, t)]
+        /\ opt \in OptSets
 
 (* exitEquation / exitIfEquation / exitForEquation for the next equation of the walk *)
 TranslateEquation ==
     /\ pc = "translate" /\ k < Len(AllEqs)
     /\ LET eq  == AllEqs[k + 1]
-           low == LowerEq(eq, G(P0, NoLoop, FALSE))
+           lw  == LowerEq(eq, G(P0, NoLoop, FALSE))
+           low == IF IsRaise(lw) THEN lw ELSE Represent(lw, opt, P0)
        IN  /\ decl' = Append(decl, [t \in Pts |-> DeclRows(eq, P0, env[t])])
            /\ gen'  = Append(gen,  [t \in Pts |-> GenRows(low, P0, env[t])])
-    /\ k' = k + 1 /\ UNCHANGED <<item, pc, env>>
+    /\ k' = k + 1 /\ UNCHANGED <<item, pc, env, opt>>
 
 Rejects(side) == \E i \in DOMAIN side : side[i][1].st = "raise"
 Bag(s) == [x \in {s[i] : i \in DOMAIN s} |-> Cardinality({i \in DOMAIN s : s[i] = x})]
@@ -586,8 +651,9 @@ ModelSide ==
      agrees |-> RejectsIffIndexBadAtDone /\ GenValueAgreesAtDone]
 
 (* exitClass: the translated equations become model.equations / initial_equations; the oracle line is printed *)
-Finish == /\ pc = "translate" /\ k = Len(AllEqs) /\ pc' = "done" /\ UNCHANGED <<item, k, decl, gen, env>>
-          /\ PrintT(<<"PROG", ToJson([prog |-> P0, tags |-> TagsOf(item), expect |-> Expect, model |-> ModelSide])>>)
+Finish == /\ pc = "translate" /\ k = Len(AllEqs) /\ pc' = "done" /\ UNCHANGED <<item, k, decl, gen, env, opt>>
+          /\ PrintT(<<"PROG", ToJson([prog |-> P0, tags |-> TagsOf(item), expect |-> Expect, model |-> ModelSide, opt |-> opt,
+                                      allpts |-> [t \in Pts |-> [t |-> t, env |-> env[t]]]])>>)
 
 Next == TranslateEquation \/ Finish
 Spec == Init /\ [][Next]_vars
